@@ -889,4 +889,4 @@ REQUIRED_PROBES = {
 }
 
 
-RULE_MORE = {'C07': ' Added in the build rounds: multi-line tokens of 1-16 KiB around powers of two, a second lexer stepped between the chunks of the first (interleaving), BOM-like glyph names, \\z, and one job in ten sends valid programs through the real loaders: as the code of a .p8, of a cart #included once, twice, by tab and then whole, after an earlier failed load of the same file, and `p8tool listtokens` on .p8 vs .p8.png. Round 6: the parts of a goto label spread over lines; two projects in the PICO-8 carts folder that each include a lib.lua of their own, loaded one after the other. Round 7: the text appended to one long-lived Lua object with update_from_lines() in batches cut where the text so far consists of complete tokens - a batch may end inside a block, the parser then rejects the program so far and the caller carries on.'}
+RULE_MORE = {'C07': " Added in the build rounds: multi-line tokens of 1-16 KiB around powers of two, a second lexer stepped between the chunks of the first (interleaving), BOM-like glyph names, \\z, and one job in ten sends valid programs through the real loaders: as the code of a .p8, of a cart #included once, twice, by tab and then whole, after an earlier failed load of the same file, and `p8tool listtokens` on .p8 vs .p8.png. Round 6: the parts of a goto label spread over lines; two projects in the PICO-8 carts folder that each include a lib.lua of their own, loaded one after the other. Round 7: the text appended to one long-lived Lua object with update_from_lines() in batches cut where the text so far consists of complete tokens - a batch may end inside a block, the parser then rejects the program so far and the caller carries on. Round 8: the text delivered as a seekable file object whose first line (the caller's front matter) has been read already; a .lua file of more than 64 KiB reached through #include."}
